@@ -346,18 +346,7 @@ func c19(c *core.Ctx) {
 				if ef.Fact.Op == token.EQL {
 					if s, ok := core.ConstString(ef.Fact.Y); ok {
 						// only comparisons of the option name (vals[0])
-						if core.OriginIs(ef.Fact.X, func(o ssa.Value) bool {
-							u, ok := o.(*ssa.UnOp)
-							if !ok {
-								return false
-							}
-							ia, ok := u.X.(*ssa.IndexAddr)
-							if !ok {
-								return false
-							}
-							k, isC := core.ConstInt(ia.Index)
-							return isC && k == 0
-						}) {
+						if core.OriginIs(ef.Fact.X, func(o ssa.Value) bool { return optPart(o, 0) }) {
 							names[s] = true
 						}
 					}
@@ -413,32 +402,10 @@ func c19(c *core.Ctx) {
 				okKey := false
 				if sl, isSl := mu.Key.(*ssa.Slice); isSl && sl.High == nil {
 					if k, isC := core.ConstInt(sl.Low); isC && k == 1 {
-						okKey = core.OriginIs(sl.X, func(o ssa.Value) bool {
-							u, ok := o.(*ssa.UnOp)
-							if !ok {
-								return false
-							}
-							ia, ok := u.X.(*ssa.IndexAddr)
-							if !ok {
-								return false
-							}
-							i0, isC := core.ConstInt(ia.Index)
-							return isC && i0 == 0
-						})
+						okKey = core.OriginIs(sl.X, func(o ssa.Value) bool { return optPart(o, 0) })
 					}
 				}
-				okVal := core.OriginIs(mu.Value, func(o ssa.Value) bool {
-					u, ok := o.(*ssa.UnOp)
-					if !ok {
-						return false
-					}
-					ia, ok := u.X.(*ssa.IndexAddr)
-					if !ok {
-						return false
-					}
-					i1, isC := core.ConstInt(ia.Index)
-					return isC && i1 == 1
-				})
+				okVal := core.OriginIs(mu.Value, func(o ssa.Value) bool { return optPart(o, 1) })
 				gM := core.GuardedBy(mu, func(f core.Fact) bool {
 					k, isC := core.ConstInt(f.Y)
 					return f.Op == token.EQL && isC && k == 'M'
@@ -715,6 +682,24 @@ func isTemplateMaker(call *ssa.Call, ci core.CallInfo) bool {
 	for _, a := range call.Call.Args {
 		if _, ok := core.ConstString(a); ok {
 			return true
+		}
+	}
+	return false
+}
+
+// optPart: v is part k of an option string split at its first '=': element k
+// of strings.SplitN(arg, "=", 2), or result k of strings.Cut(arg, "=").
+func optPart(v ssa.Value, k int64) bool {
+	if u, ok := v.(*ssa.UnOp); ok && u.Op == token.MUL {
+		if ia, ok := u.X.(*ssa.IndexAddr); ok {
+			i, isC := core.ConstInt(ia.Index)
+			return isC && i == k
+		}
+	}
+	if ex, ok := v.(*ssa.Extract); ok {
+		if call, ok := ex.Tuple.(*ssa.Call); ok && core.InfoOf(&call.Call).Is("strings.Cut") {
+			sep, isS := core.ConstString(call.Call.Args[1])
+			return isS && sep == "=" && int64(ex.Index) == k
 		}
 	}
 	return false
